@@ -3,6 +3,7 @@
 A check is a list of jobs. A job is a python function run in a forked worker process: it builds symbolic inputs,
 runs the engine on functions taken from the MIR of /repo's current tree, adds the property as obligations and
 returns a JobResult. The parent aggregates, replays counterexamples natively and writes evidence."""
+import re
 import os, sys, json, time, traceback, multiprocessing, subprocess, hashlib, signal
 import z3
 from . import build, solve
@@ -93,7 +94,10 @@ class Check:
         s.replayer = None       # function(case dict) -> (reproduced: bool, detail) for violations
         s.known_classifier = None
 
-    def job(s, fn, name, **kw): s.jobs.append((fn, name, s.pid, s.tier, s.seed, kw))
+    def job(s, fn, name, **kw):
+        flt = os.environ.get('VERIF_JOBS')        # development aid: run only the jobs whose name matches (never set by registered commands)
+        if flt and not re.search(flt, name): return
+        s.jobs.append((fn, name, s.pid, s.tier, s.seed, kw))
 
     def run(s, procs=None):
         load_mir(s.crates)
@@ -109,6 +113,8 @@ class Check:
     # ------------------------------------------------------------------ reporting
     def finish(s, results, level_rule, extra_assumptions=()):
         os.makedirs(EVID, exist_ok=True)
+        import glob
+        for old in glob.glob(os.path.join(EVID, '%s.violation.*.json' % s.pid)): os.unlink(old)      # replay files of earlier runs
         known = load_known(s.pid)
         viol_lines = []; known_lines = []; status = 0
         n_viol = 0; replays = 0
@@ -206,9 +212,17 @@ def witness(jr, e, name, formula, extract, optional=False):
         jr.status = 'inconclusive'; jr.reason = 'vacuity witness %s is %s' % (name, r)
 
 
-def discharge_known(e, jr, pid, classes, extract, obligations=None):
+def discharge_known(e, jr, pid, classes, extract, obligations=None, prefer=None):
     """Discharge obligations with the open known-finding classes excluded, then ask for each open class
     whether it still reproduces. classes: name -> (formula over the inputs, obligation kinds it may affect)."""
+    if prefer is not None:
+        # phase 1: the sub-space whose counterexamples can be rebuilt natively; phase 2 (everything) only if phase 1 is clean
+        base = list(e.obligations if obligations is None else obligations)
+        res1 = discharge_known(e, jr, pid, classes, extract, obligations=[Obligation(zand(o.guard, prefer), o.cond, o.msg, o.kind, o.where) for o in base])
+        if jr.violations: return res1
+        res2 = discharge_known(e, jr, pid, classes, extract, obligations=base)
+        res2.total += res1.total; res2.discharged += res1.discharged; res2.queries += res1.queries; res2.solver_time += res1.solver_time
+        return res2
     known = {k['class']: k for k in load_known(pid)}
     active = {n: c for n, c in classes.items() if n in known}
     src = list(e.obligations if obligations is None else obligations)
